@@ -998,7 +998,7 @@ func main() {
 		"original grants are taken as the storage recorded them (their correctness is C04/C06/C16)",
 		"where a parameter travels (form body, URL query, both) never changes who may refresh: the refusal side of the model is placement-blind; success is demanded only for all-body requests; a request with conflicting grant_type members is judged by what was served (a success whose journal shows no refresh token request was served by another grant and is not judged)",
 		"in one third of the histories the storage hands out a RefreshTokenRequest that aliases the stored token (SetCurrentScopes writes through, as in the repository's example storage); after every refused request the scopes the storage holds for the presented token are compared with those before it: widened -> violation, only narrowed -> grey")
-	n := run.N(2000, 40000)
+	n := run.N(4000, 40000)
 	if rc := run.ReplayCase(); rc >= 0 {
 		runHistory(run, int(rc), 0)
 		runHistory(run, int(rc), 1)
